@@ -16,14 +16,23 @@ import (
 	"pgregory.net/rapid"
 )
 
-var hardRunes = []rune{0, 1, 0x1f, '"', '\\', '/', '<', '>', '&', '\n', '\r', '\t', '\b', '\f', 0x7f, 0x80, 0xe9, 0x2028, 0x2029,
+var hardRunes = []rune{0, 1, 7, 0x0b, 0x1b, 0x1f, 0xe0001, 0x10fffd, '"', '\\', '/', '<', '>', '&', '\n', '\r', '\t', '\b', '\f', 0x7f, 0x80, 0xe9, 0x2028, 0x2029,
 	0xfffd, 0xffff, 0x10000, 0x1f600, 0x10ffff, 0xd7ff, 0xe000, ' ', 'a', 'Z', '0'}
 
 var numberSpellings = []string{"0", "-0", "1", "-1", "42", "9007199254740993", "-9007199254740993", "9223372036854775807",
 	"-9223372036854775808", "18446744073709551616", "12345678901234567890123", "0.1", "0.10", "1.0", "-1.5e3", "1E+2", "1e-2", "1e400",
 	"-1e-400", "3.141592653589793238462643383279", "2e0", "0e0", "0.0", "123456789.123456789"}
 
+// escapeLookalikes are string VALUES whose characters spell what an encoder's escape looks like (a JSON document or a
+// piece of source text carried inside a string). A codec that post-processes its output bytes, or one that renders
+// strings with another language's quoting rules, treats them differently from ordinary text.
+var escapeLookalikes = []string{`\u003c`, `\u003e`, `\u0026`, `\u0000`, `\u2028`, `\ud83d\ude00`, `\n`, `\"`, `\\`, `\/`, `\x00`, `\a`, `\v`, `\U0001F600`,
+	`{"a":"\u003cb\u003e \u0026 \"q\""}`, `a\u003cb`, `%s`, `%q%!`, `&lt;`, `\\u003c`, "\\\u0000", `"`, `\`}
+
 func genRunes(t *rapid.T, label string, maxLen int) []rune {
+	if maxLen >= 6 && rapid.IntRange(0, 7).Draw(t, label+"lookalike") == 0 {
+		return []rune(rapid.SampledFrom(escapeLookalikes).Draw(t, label+"lk"))
+	}
 	n := rapid.IntRange(0, maxLen).Draw(t, label+"len")
 	out := make([]rune, 0, n)
 	for i := 0; i < n; i++ {
